@@ -93,7 +93,7 @@ class Gen:
         self.canaries = canaries or []
         r = self.rc = rng_for(seed, "cfg")
         self.r = rng_for(seed, "ops")
-        arms = [("clean", 0.35), ("reject", 0.3), ("transparent", 0.35)] if tier == "quick" else [("clean", 0.25), ("reject", 0.25), ("transparent", 0.3), ("interrupt", 0.2)]
+        arms = [("clean", 0.3), ("reject", 0.3), ("transparent", 0.28), ("interrupt", 0.12)] if tier == "quick" else [("clean", 0.25), ("reject", 0.25), ("transparent", 0.3), ("interrupt", 0.2)]
         self.arm = wchoice(r, arms)
         self.cfg = {
             "arm": self.arm,
@@ -128,6 +128,7 @@ class Gen:
         self.name_bodies = {}
         self.interrupted = set()
         self.forgotten = set()
+        self.planned_interrupts = []
         self.recompiles = {}
         self.side = {}
         self.interesting = []
@@ -634,8 +635,27 @@ class Gen:
             kind = wchoice(r, sorted(self.w.items()))
             if not self.pool and kind not in ("compile_str", "compile_callable", "compile_param", "secret_oracle"):
                 kind = "compile_str"
+            n_before = len(self.ops)
             getattr(self, "b_" + kind)(s)
-        early = [o["id"] for o in self.ops[: max(3, len(self.ops) // 3)]]
+            if self.arm == "interrupt" and len(self.ops) > n_before and len(self.planned_interrupts) < 2 and r.random() < 0.12:
+                last = self.ops[-1]
+                if last["kind"] in ("compile_str", "compile_callable", "bind", "oraclize", "algo", "truth_table", "decompile", "export", "recompile"):
+                    # this op will be interrupted (Ctrl-C at a seeded library line): nothing may use its
+                    # result; half of the time the user simply runs the same thing again right away
+                    self.planned_interrupts.append({"op": last["id"], "kind": "interrupt", "frac": round(r.random(), 6)})
+                    if r.random() < 0.5 and last["kind"] != "recompile":
+                        self.b_again(s, last["id"])
+                    self.interrupted.add(last["id"])
+                    self.pool = [e for e in self.pool if e["id"] != last["id"]]
+        if self.arm == "interrupt" and not self.planned_interrupts:
+            used = {u for o in self.ops for u in o["uses"]}
+            leaf = [o["id"] for o in self.ops if o["id"] not in used and o["kind"] in ("compile_str", "compile_callable", "bind", "oraclize", "algo", "truth_table", "decompile", "export")]
+            if leaf:
+                k = r.choice(leaf)
+                self.planned_interrupts.append({"op": k, "kind": "interrupt", "frac": round(r.random(), 6)})
+                self.interrupted.add(k)
+                self.pool = [e for e in self.pool if e["id"] != k]
+        early = [o["id"] for o in self.ops[: max(3, len(self.ops) // 3)] if o["id"] not in self.interrupted]
         for _ in range(tail):
             if early:
                 self.b_again(r.randrange(cfg["sessions"]), r.choice(early))
@@ -672,13 +692,10 @@ class Gen:
                 op = r.choice(heavy)
             else:
                 op = r.choice(ids)
-            if arm == "interrupt" and j < 2:
-                kind = "interrupt"
-            else:
-                kind = "flush" if r.random() < 0.75 else "gc"
+            kind = "flush" if r.random() < 0.75 else "gc"
             frac = r.random() if r.random() < 0.85 else 1.0  # 1.0 = between this op and the next
             out.append({"op": op, "kind": kind, "frac": round(frac, 6)})
-        return out
+        return out + self.planned_interrupts
 
 
 def make_canaries(batch_seed, tier):
